@@ -91,3 +91,14 @@ package bus
 //@   call DecodeFrom#1: ghost_after p.client.decfail := result0 != nil
 //@   ensures[C08] p.client.decfail ==> err != nil
 //@   call Close#1: assert false
+
+// What a generated proxy method sees of its proxy (bus/zz_contracts_proxy_verif.go,
+// bus/services/zz_contracts_proxy_verif.go): interface contracts, proved for the implementers
+// proxy.Call2 and (*proxyObject).Proxy.
+//@ interface (o ObjectProxy) Proxy() (result Proxy)
+//@   trusted
+//@   pure
+//@   ensures result != nil
+//@ interface (p Proxy) Call2(method string, args Params, ret Response) (err error)
+//@   trusted
+//@   modifies everything
